@@ -450,9 +450,10 @@ example : runRaw pDivi 9 0 [i64 43, i64 4] = some [(i64 10, 64)] ∧
     runRaw pDivi 100000 0 [i64 43, i64 4] = some [(i64 10, 64)] :=
   ⟨by decide +kernel, C03_fuel_irrelevant_raw pDivi 9 100000 (by decide) 0 _ _ (by decide +kernel)⟩
 
-/-! ### Witnesses of the known deviations of the pinned compiler
+/-! ### Witnesses of the known deviations of the compiler
 
-The property is *violated* by /repo on the program shapes below (each replayed
+The property is *violated* by /repo on the program shapes of
+`C03_finding_witnesses` below (those of `C03_repaired_witnesses` were repaired) (each replayed
 on the real compiler by `c03 witness`; ids in /verif/known_findings.json).
 Here: the value the reference semantics assigns, next to the value the
 compiled circuit returns (comment).  `C03_finding_witnesses` therefore is the
@@ -503,22 +504,31 @@ def wConstLeft : Prog := [⟨[("a", .uint 32)], 2,
   [.ret [.bin .lt (.lit (.uint 32) 100) (.var "a"), .bin .gt (.var "a") (.lit (.uint 32) 100)]]⟩]
 
 theorem C03_finding_witnesses :
-    -- C03-lit-signed-narrow, a = -16: circuit returns (1, 0x50, 0)
-    runRaw wLit 9 0 [0xf0] = some [(0, 1), (0xfb, 8), (1, 8)] ∧
     -- C03-inner-block-redeclaration, a = 3, b = true: circuit returns (3, 6)
     runRaw wShadow 20 0 [3, 1] = some [(1, 4), (6, 4)] ∧
     -- C03-cast-int-to-wider-uint, a = -1: circuit returns (0x0f, 0xff)
     runRaw wCast 9 0 [0xf] = some [(0xff, 8), (0xff, 8)] ∧
     -- C03-define-redeclared-rejected, a = 1: compiler: "no new variables on left side of :="
     runRaw wDefLoop 20 0 [1] = some [(3, 4)] ∧
-    -- C03-named-result-not-zeroed, a = 5 and a = 1: circuit returns 0 and 0
-    runRaw wNamed 20 1 [5] = some [(5, 8)] ∧ runRaw wNamed 20 1 [1] = some [(0, 8)] ∧
-    -- C03-const-cast-narrows-shared-constant, a = 5: circuit returns (1, 4)
-    runRaw wConstCast 9 0 [5] = some [(1, 8), (8, 8)] ∧
     -- C03-const-signed-widening, a = 2^39 + 5: circuit returns (5, 2^39 + 5)
-    runRaw wConstWiden 9 0 [0x8000000005] = some [(5, 40), (5, 40)] ∧
-    -- C03-const-left-unsigned-compare, a = 2^31: circuit returns (0, 1)
+    runRaw wConstWiden 9 0 [0x8000000005] = some [(5, 40), (5, 40)] := by
+  refine ⟨?_, ?_, ?_, ?_⟩ <;> decide +kernel
+
+/-- The four deviations repaired in /repo (`fix:` commits 4accfb7 named
+results zeroed, 3c18dfa constant bits from the constant's own value, dfc60cc
+signedness from the common operand type, 86f919b an untyped constant adopts
+the other operand's type): the model's values on the former witnesses, with
+which the compiled circuits now AGREE (`c03 witness` runs them as ordinary
+cases; before the fixes the circuits returned the values in the comments). -/
+theorem C03_repaired_witnesses :
+    -- a > 3, a / 3, a % 3 at a = int8(-16)        (was: 1, 0x50, 0)
+    runRaw wLit 9 0 [0xf0] = some [(0, 1), (0xfb, 8), (1, 8)] ∧
+    -- `if p > int8(3) { r = p }; return` at 5 and 1   (was: 0 and 0)
+    runRaw wNamed 20 1 [5] = some [(5, 8)] ∧ runRaw wNamed 20 1 [1] = some [(0, 8)] ∧
+    -- uint8(uint2(a) & uint2(3)), a + 3 at a = 5    (was: 1, 4)
+    runRaw wConstCast 9 0 [5] = some [(1, 8), (8, 8)] ∧
+    -- 100 < a, a > 100 at a = 2^31                  (was: 0, 1)
     runRaw wConstLeft 9 0 [0x80000000] = some [(1, 1), (1, 1)] := by
-  refine ⟨?_, ?_, ?_, ?_, ?_, ?_, ?_, ?_, ?_⟩ <;> decide +kernel
+  refine ⟨?_, ?_, ?_, ?_, ?_⟩ <;> decide +kernel
 
 end Mpc
